@@ -127,9 +127,16 @@ def run(ctx):
                     ctx.violation(case, "QuickIsSlowMinusSlowStrategies", sorted(set(names) - {"FinitelyManySimplesStrategy"}), report_of(fast))
             if pname == "as given":
                 for cls in core_strategies:
-                    st3, ap = util.call(lambda c=cls: c(B).applies())
-                    if st3 == "ok" and ap != (NAME[cls.__name__] in want_core):
-                        ctx.violation(dict(case, strategy=cls.__name__), "CoreStrategyHypothesis", NAME[cls.__name__] in want_core, ap)
+                    obj = cls(B)
+                    for ask in (1, 2, 3):                 # the same strategy object asked repeatedly
+                        st3, ap = util.call(obj.applies)
+                        if st3 == "ok" and ap != (NAME[cls.__name__] in want_core):
+                            ctx.violation(dict(case, strategy=cls.__name__, asked=ask), "CoreStrategyHypothesis", NAME[cls.__name__] in want_core, ap)
+                            break
+                for obj in got:                           # the objects find_strategies returned still say "applies"
+                    st3, ap = util.call(obj.applies)
+                    if st3 == "ok" and ap is not True:
+                        ctx.violation(dict(case, strategy=type(obj).__name__, asked="reported object asked again"), "CoreStrategyHypothesis", True, ap)
                 ie = any(is_insertion_encodable([Perm(p) for p in sym]) for sym in rec["syms"])
                 if ("InsertionEncodingStrategy" in names) != ie:
                     ctx.violation(dict(case, strategy="InsertionEncodingStrategy"), "InsertionEncodingStrategyIffClassTest", ie, not ie)
